@@ -1,11 +1,14 @@
 package main
 
 import (
+	"bytes"
 	"crypto"
 	"crypto/rand"
 	"crypto/rsa"
 	"crypto/sha1"
+	"crypto/sha256"
 	"crypto/x509"
+	"crypto/x509/pkix"
 	"encoding/asn1"
 	"encoding/binary"
 	"encoding/hex"
@@ -267,6 +270,50 @@ func partD(pool *jvmPool) {
 		name := fmt.Sprintf("subj%d", i)
 		addKey(name, filepath.Join(relicx.KeyDir, "rsaA.key"), p)
 		cases = append(cases, idCase{name: "generated subject " + s.name, key: name, leaf: leaf, issuer: inter})
+	}
+	// issuing CAs whose subjectKeyIdentifier is NOT the SHA-1 of their key (RFC 7093
+	// truncated SHA-256; an arbitrary 8-byte value): issuerKeyHash is defined over
+	// the issuer's public key, whatever identifier the certificate carries
+	{
+		spki, err := x509.MarshalPKIXPublicKey(interKey.Public())
+		if err != nil {
+			fatal("%v", err)
+		}
+		d := sha256.Sum256(spki)
+		for i, ski := range [][]byte{d[:20], {1, 2, 3, 4, 5, 6, 7, 8}} {
+			caT := &x509.Certificate{
+				SerialNumber: big.NewInt(int64(7093 + i)), Subject: pkix.Name{CommonName: fmt.Sprintf("verif CA with unusual key identifier %d", i)},
+				NotBefore: time.Now().Add(-time.Hour), NotAfter: time.Now().Add(48 * time.Hour),
+				IsCA: true, BasicConstraintsValid: true, KeyUsage: x509.KeyUsageCertSign, SubjectKeyId: ski,
+			}
+			// issued by the fixture root so that the chain is trusted like the other cases
+			caDER, err := x509.CreateCertificate(rand.Reader, caT, loadPEMCert(filepath.Join(relicx.KeyDir, "root.crt")), interKey.Public(), loadPEMKey(filepath.Join(relicx.KeyDir, "root.key")))
+			if err != nil {
+				fatal("cannot create CA: %v", err)
+			}
+			ca, _ := x509.ParseCertificate(caDER)
+			if !bytes.Equal(ca.SubjectKeyId, ski) {
+				fatal("CA key identifier was not kept")
+			}
+			tmpl := &x509.Certificate{
+				SerialNumber: big.NewInt(int64(7193 + i)), Subject: pkix.Name{CommonName: "leaf under unusual CA"},
+				NotBefore: time.Now().Add(-time.Hour), NotAfter: time.Now().Add(24 * time.Hour),
+				KeyUsage: x509.KeyUsageDigitalSignature, ExtKeyUsage: []x509.ExtKeyUsage{x509.ExtKeyUsageCodeSigning},
+			}
+			der, err := x509.CreateCertificate(rand.Reader, tmpl, ca, leafKey.Public(), interKey)
+			if err != nil {
+				fatal("cannot issue leaf: %v", err)
+			}
+			leaf, _ := x509.ParseCertificate(der)
+			p := filepath.Join(scratch, fmt.Sprintf("ski%d.crt", i))
+			blob := pem.EncodeToMemory(&pem.Block{Type: "CERTIFICATE", Bytes: der})
+			blob = append(blob, pem.EncodeToMemory(&pem.Block{Type: "CERTIFICATE", Bytes: caDER})...)
+			blob = append(blob, rootPEM...)
+			os.WriteFile(p, blob, 0o644)
+			name := fmt.Sprintf("ski%d", i)
+			addKey(name, filepath.Join(relicx.KeyDir, "rsaA.key"), p)
+			cases = append(cases, idCase{name: fmt.Sprintf("issuer whose key identifier is not SHA-1 of its key (%x)", ski), key: name, leaf: leaf, issuer: ca})
+		}
 	}
 	if err := c.Normalize(""); err != nil {
 		fatal("config: %v", err)
